@@ -2,7 +2,8 @@
    panics.  Property theorems only: each is closed by [exact] of a lemma of
    Proofs.FieldProofs, followed by Print Assumptions. *)
 From Coq Require Import ZArith Znumtheory.
-Require Import Model.Base Model.Field Spec.FieldSpec Proofs.FieldProofs.
+Require Import Model.Base Model.Field Model.Ir Model.Propagate Model.FieldDispatch Model.FieldPow.
+Require Import Spec.FieldSpec Spec.DispatchSpec Proofs.FieldProofs Proofs.DispatchProofs Proofs.FieldPowProofs.
 Local Open Scope Z_scope.
 
 (* every operation except division: the mirror computes the documented value;
@@ -68,6 +69,86 @@ Theorem C16_sval_inj : forall x y p,
   2 < p -> 0 <= x < p -> 0 <= y < p -> sval x p = sval y p -> x = y.
 Proof. exact sval_inj. Qed.
 Print Assumptions C16_sval_inj.
+
+(* ---- the operator dispatch of expression_impl.rs (infix_values / prefix_values
+   of Model.Propagate, driven over closed expressions over literals by
+   Model.FieldDispatch.lit_dispatch) ---- *)
+
+(* a constant attached to a closed expression is the value Circom defines for
+   it (a literal denotes its residue, Booleans stand for 0 / 1), canonical *)
+Theorem C16_dispatch_sound : forall p, prime p -> 2 < p -> Z.log2 p < 2 ^ 64 ->
+  forall e c, lits_nonneg e -> lit_dispatch p e = Ok (Some c) ->
+  exists v, doc_sem p e v /\ const_ok c v /\ 0 <= v < p.
+Proof. exact dispatch_sound. Qed.
+Print Assumptions C16_dispatch_sound.
+
+(* the dispatch never panics and never runs out of fuel on closed expressions *)
+Theorem C16_dispatch_total : forall p, prime p -> 2 < p -> Z.log2 p < 2 ^ 64 ->
+  forall e, lits_nonneg e -> exists o, lit_dispatch p e = Ok o.
+Proof. exact dispatch_total. Qed.
+Print Assumptions C16_dispatch_total.
+
+(* two field constants get no constant only for && and ||, for a zero divisor,
+   or for a shift count that fits no machine word in either direction *)
+Theorem C16_dispatch_missing_constant_cases : forall p, prime p -> 2 < p -> Z.log2 p < 2 ^ 64 ->
+  forall op a b, 0 <= a < p -> 0 <= b < p ->
+  infix_values op (Some (VField a)) (Some (VField b)) p = Ok None ->
+  op = IOr \/ op = IAnd \/
+  ((op = IDiv \/ op = IIntDiv \/ op = IMod) /\ b = 0) \/
+  ((op = IShl \/ op = IShr) /\ 2 ^ 64 <= b /\ 2 ^ 64 <= p - b).
+Proof. exact infix_none_cases. Qed.
+Print Assumptions C16_dispatch_missing_constant_cases.
+
+(* `-` and `~` always apply to a field constant, `!` to a Boolean constant *)
+Theorem C16_dispatch_prefix_cases : forall p op c,
+  prefix_values op (Some c) p = None ->
+  match c with VField _ => op = PNot | VBool _ => op = PNeg \/ op = PCompl end.
+Proof. exact prefix_some_cases. Qed.
+Print Assumptions C16_dispatch_prefix_cases.
+
+(* the search oracle for closed expressions computes the documented value
+   (no primality needed: the quotient is checked against its definition) *)
+Theorem C16_doc_eval_sound : forall p e, 2 < p -> forall v, lits_nonneg e ->
+  doc_eval p e = Ok v -> doc_sem p e v /\ 0 <= v < p.
+Proof. exact doc_eval_sound. Qed.
+Print Assumptions C16_doc_eval_sound.
+
+(* what the search compares: the constant attached by the dispatch against the oracle's value *)
+Theorem C16_dispatch_agrees_with_oracle : forall p e c v,
+  prime p -> 2 < p -> Z.log2 p < 2 ^ 64 -> lits_nonneg e ->
+  lit_dispatch p e = Ok (Some c) -> doc_eval p e = Ok v -> const_ok c v.
+Proof. exact dispatch_agrees_with_oracle. Qed.
+Print Assumptions C16_dispatch_agrees_with_oracle.
+
+(* ---- bounded work of `**`: the multiplication sequence of the library's
+   windowed modular exponentiation (Model.FieldPow) ---- *)
+
+(* it computes the value of Field.pow, never panics on field elements, and
+   makes a number of modular multiplications fixed by the exponent's limb count *)
+Theorem C16_modpow_steps_spec : forall b e p,
+  prime p -> 2 < p -> 0 <= b -> 0 <= e ->
+  modpow_steps b e p = Ok (pow b e p, if e =? 0 then 17 else 80 * ((bits e + 63) / 64) + 13).
+Proof. exact modpow_steps_spec. Qed.
+Print Assumptions C16_modpow_steps_spec.
+
+(* ... which is linear in the bit length of the exponent (at most 333 for a 256-bit exponent) *)
+Theorem C16_modpow_steps_bound : forall e, 0 <= e ->
+  17 <= (if e =? 0 then 17 else 80 * ((bits e + 63) / 64) + 13) <= 2 * bits e + 93.
+Proof. exact monty_steps_bound. Qed.
+Print Assumptions C16_modpow_steps_bound.
+
+(* non-vacuity of the dispatch and exponentiation theorems *)
+Example C16_dispatch_witnesses :
+  lits_nonneg (LInfix ILe (LNum 5) (LNum 12)) /\
+  lit_dispatch 7 (LInfix ILe (LNum 5) (LNum 12)) = Ok (Some (VBool true)) /\
+  doc_eval 7 (LInfix ILe (LNum 5) (LNum 12)) = Ok 1 /\
+  lit_dispatch 7 (LInfix IAdd (LInfix IDiv (LNum 1) (LNum 0)) (LNum 2)) = Ok None /\
+  lit_dispatch 7 (LInfix IAnd (LNum 3) (LNum 4)) = Ok None /\
+  lit_dispatch 7 (LInfix IDiv (LNum 3) (LNum 5)) = Ok (Some (VField 2)) /\
+  doc_eval 7 (LInfix IDiv (LNum 3) (LNum 5)) = Ok 2 /\
+  modpow_steps 3 5 7 = Ok (5, 93) /\ modpow_steps 0 6 7 = Ok (0, 93) /\ modpow_steps 3 0 7 = Ok (1, 17) /\
+  modpow_steps 3 (2 ^ 64) 7 = Ok (4, 173) /\ modpow_steps 3 (-1) 7 = Panic site_modpow_negative_exponent.
+Proof. vm_compute. repeat split; try reflexivity; intro; discriminate. Qed.
 
 (* non-vacuity: the hypotheses are met by a concrete field, and the defects
    repaired by the fix: commits stay repaired in the mirror *)
